@@ -210,6 +210,9 @@ def _get_app(backend, timeout, path):
                     s.delete()
                 elif f[0] == 'x':
                     sessions.expire()
+                elif f[0] == 'S':
+                    # streamed response: the save hook defers session.save to on_end_request
+                    cherrypy.response.stream = True
                 else:
                     raise common.HarnessError('bad hop ' + tok)
                 inst = cherrypy.serving.session
@@ -391,7 +394,8 @@ def run_history(case):
                     mc = 'e%d' % w.number(cookie)
                 else:
                     mc = 'i%d' % w.number(cookie)
-                mops.append('q/%s/%s' % (mc, '+'.join(hops) if hops else '-'))
+                mhops = [h for h in hops if h != 'S']     # streaming is not a model operation
+                mops.append('q/%s/%s' % (mc, '+'.join(mhops) if mhops else '-'))
                 events.append({'op': 'req', 'client': client, 'spec': spec, 'cookie': cookie, 'hops': hops,
                                'status': st, 'sid': sid, 'expired': expired, 'reads': reads,
                                'before': before, 'after': after, 'now': w.clock, 'escapes': escapes,
@@ -728,6 +732,8 @@ def gen_hops(rng, maxn=4):
             out.append(h)
     if out and rng.random() < 0.5 and out[0] != 'r':
         out.insert(0, 'r')
+    if rng.random() < 0.06:
+        out.insert(rng.randrange(len(out) + 1), 'S')
     return out
 
 
